@@ -85,12 +85,12 @@ Definition judge_c01reach (l : list Z) : list Z :=
   end.
 
 (* model side of the stream: play the moves on the engine model, report its playable moves *)
-From Chess3 Require Import Model.Board Model.Movegen Gen.Zobrist Spec.Play.
+From Chess3 Require Import Model.Board Model.Movegen Gen.Zobrist Spec.Play Model.BoardStreams.
 Definition run_c01reach (l : list Z) : list Z :=
   match decode_board l with
   | Some (b, n :: rest) =>
       let ms := map Z.to_N (firstn (Z.to_nat n) rest) in
-      let pl := playable zob_real (run zob_real b ms) in
+      let pl := sortN (playable zob_real (run zob_real b ms)) in   (* compared as a sorted list: a set with multiplicities *)
       Z.of_nat (length pl) :: map Z.of_N pl
   | _ => []
   end.
